@@ -138,11 +138,16 @@ def returned_lines_problem(real, mtrace, rows):
 ENTRY_POINTS = ["collect", "collect", "collect", "collect", "next", "next", "parse+next", "parse+collect", "fast_forward", "collect"]
 
 
-def decide(prog, rows, agg, what, known_switches=(), extra_check=None, policy=None):
+def decide(prog, rows, agg, what, known_switches=(), extra_check=None, policy=None, model_policy=None):
     """policy: None -> real run under ['collect'] and any error is a divergence;
     a list -> real run under that policy, the model applies it to documented errors"""
     """-> (status, info)
     status: held | undecided | violation | known ; info: reason / witness"""
+    # model_policy: the policy as the csvpath's own validation-mode comment leaves it (the real run gets the configured
+    # policy and the comment; the reference evaluator gets the effective flags)
+    real_policy = policy
+    if model_policy is not None:
+        policy = model_policy
     try:
         m, mtrace = model_trace(prog, rows, policy=policy)
     except model.Unspec as e:
@@ -154,7 +159,7 @@ def decide(prog, rows, agg, what, known_switches=(), extra_check=None, policy=No
 
     method = ENTRY_POINTS[zlib.crc32(lang.program_text(prog, "p.csv").encode()) % len(ENTRY_POINTS)]
     agg.count("entry:" + method)
-    real = real_run(prog, rows, agg, policy=("collect",) if policy is None else tuple(policy), method=method)
+    real = real_run(prog, rows, agg, policy=("collect",) if real_policy is None else tuple(real_policy), method=method)
     try:
         os.unlink("p.csv")
     except OSError:
